@@ -456,10 +456,19 @@ def check_slices(res, ctx):
            repr(want), repr(got))
 
 
-def check_to_image(res, ctx):
+TO_IMAGE_DTYPES = [None, 'float32', 'int64', 'uint8', 'bool']
+
+
+def check_to_image(res, ctx, dtype=None):
+    """to_image with the default dtype (float) and with every dtype of TO_IMAGE_DTYPES: the placed weights, cast the
+    way numpy casts on assignment."""
     g = ctx.geo
     case = ctx.base_case('to_image')
-    ok, r = _call(res, lambda: ctx.mask.to_image((g.iny, g.inx)))
+    if dtype is not None:
+        case['dtype'] = dtype
+        ok, r = _call(res, lambda: ctx.mask.to_image((g.iny, g.inx), dtype=np.dtype(dtype)))
+    else:
+        ok, r = _call(res, lambda: ctx.mask.to_image((g.iny, g.inx)))
     if not ok:
         _raised(res, ctx, case, 'to_image', r)
         return
@@ -489,6 +498,14 @@ def check_to_image(res, ctx):
             c = g.cells[j][i]
             if c is not None:
                 model[c[0]][c[1]] = ctx.W[j][i]
+    if dtype is not None:
+        want = np.array([[float(v) for v in row] for row in model], dtype=float).reshape(g.iny, g.inx).astype(np.dtype(dtype))
+        got = np.asarray(r)
+        res.outcome(('to_image', g.kind, dtype, 'ok' if got.dtype == want.dtype and np.array_equal(got, want) else 'wrong'))
+        if got.dtype != want.dtype or not np.array_equal(got, want):
+            _V(res, 'to_image_wrong', case, f'to_image(dtype={dtype}) gives dtype {got.dtype} values {got.tolist()}, expected the placed '
+                                            f'weights cast to {dtype}: {want.tolist()} -- {_describe(ctx)}', want.tolist(), got.tolist())
+        return
     bad = _grid_cmp(vals.tolist(), lambda y, x: model[y][x], g.iny, g.inx)
     res.outcome(('to_image', g.kind, 'ok' if not bad else 'wrong'))
     if bad:
@@ -685,9 +702,46 @@ def check_state(res, st, S):
                 continue
 
 
+def check_nonfinite(res, ctx):
+    """An image with NaN / +-inf pixels (also at pixels of weight zero) is the caller's: multiply / cutout / get_values
+    leave it bit-identical and accept it read-only."""
+    g = ctx.geo
+    if g.iny == 0 or g.inx == 0:
+        return
+    yy, xx = np.mgrid[0:g.iny, 0:g.inx]
+    img = (100.0 * yy + xx + 1.5).astype(float)
+    k = (xx + 2 * yy) % 5
+    img[k == 0] = np.nan
+    img[k == 1] = np.inf
+    img[k == 3] = -np.inf
+    before = img.tobytes()
+    ro = img.copy()
+    ro.flags.writeable = False
+    calls = (('multiply', lambda a: ctx.mask.multiply(a)), ('multiply(fill_value=7)', lambda a: ctx.mask.multiply(a, fill_value=7.0)),
+             ('cutout', lambda a: ctx.mask.cutout(a)), ('cutout(copy=True)', lambda a: ctx.mask.cutout(a, copy=True)),
+             ('get_values', lambda a: ctx.mask.get_values(a)))
+    for name, fn in calls:
+        case = ctx.base_case('nonfinite:' + name)
+        ok, r = _call(res, lambda: fn(img))
+        if not ok:
+            _V(res, 'unexpected_exception', case, f'{name} on an image with non-finite pixels raised {type(r).__name__}: {r} -- {_describe(ctx)}')
+        if img.tobytes() != before:
+            _V(res, 'input_modified', case, f'{name} modified the caller\'s image (non-finite pixels) -- {_describe(ctx)}')
+            img = np.frombuffer(before, dtype=float).reshape(g.iny, g.inx).copy()
+        ok, r = _call(res, lambda: fn(ro))
+        if not ok:
+            _V(res, 'unexpected_exception', case, f'{name} on a read-only image with non-finite pixels raised {type(r).__name__}: {r} -- '
+                                                  f'{_describe(ctx)}')
+        _after(res, ctx, case, name)
+    res.outcome(('nonfinite', g.kind))
+
+
 def _run_ctx(res, ctx, S):
     check_slices(res, ctx)
     check_to_image(res, ctx)
+    for dt in TO_IMAGE_DTYPES[1:]:
+        check_to_image(res, ctx, dtype=dt)
+    check_nonfinite(res, ctx)
     for dt in S['dtypes']:
         for layout in S['layouts']:
             for fname in S['fills']:
@@ -751,7 +805,9 @@ def replay(case):
         if m == 'get_overlap_slices':
             check_slices(res, ctx)
         elif m == 'to_image':
-            check_to_image(res, ctx)
+            check_to_image(res, ctx, dtype=case.get('dtype'))
+        elif m.startswith('nonfinite'):
+            check_nonfinite(res, ctx)
         elif m == 'cutout':
             check_cutout(res, ctx, case['dtype'], case['layout'], case['fill'], case['copy'])
         elif m == 'multiply':
